@@ -636,6 +636,8 @@ func (c *EvalCtx) lambda(e ast.Expr, nparams int) (*ast.FuncLit, []types.Object)
 }
 
 func (c *EvalCtx) lambdaBody(fl *ast.FuncLit) (string, types.Type) {
+	c.x.vc.quiet++
+	defer func() { c.x.vc.quiet-- }()
 	return c.expr(fl.Body.List[0].(*ast.ReturnStmt).Results[0])
 }
 
